@@ -15,7 +15,7 @@ CHECKS = {
          'Every returned tree of every execution in the bounded space (deviation-bounded and full-product score matrices x grammars (incl. two mixed-head ones) x n<=3(4), 5-10-word sentences for small derivation spaces, n-best {1,2,5} and all-derivation runs, beam settings, native driver and full stack) is validated against the statement: leaves = tokens in order with admitted supertags, every node licensed by the grammar callback, allowed root, no unary root for n>1, nothing but trees or the placeholder.',
          'Trusted: validator in mc/search.py, transliterated parsing.pyx on the full path, category print/parse round trip for the grammars used.', '5/C02'),
  'C09': ('search', MC, 'bounded exhaustive enumeration of search executions; score recomputed from each returned tree',
-         'For every returned tree of every execution (grammars of both head directions and mixed heads, penalties {0,0.5,0.125}, n-best {1,3}, 5-10-word sentences for small derivation spaces, constant and graded baselines) the score is recomputed from the tree and its head flags exactly as the statement says and compared with == on an exact dyadic alphabet; placeholders must carry -inf.',
+         'For every returned tree of every execution (grammars of both head directions and mixed heads, penalties {0,0.5,0.125}, n-best {1,3}, 5-10-word sentences for small derivation spaces, constant and graded baselines) the score is recomputed from the tree and its head flags exactly as the statement says and compared with == on an exact dyadic alphabet (entries at -inf included: such a tree must report -inf); placeholders must carry -inf; a result list that is empty is a violation.',
          'Trusted: exact float32 arithmetic on the dyadic alphabet; transliterated parsing.pyx.', '5/C09'),
  'C10': ('search', MC, 'bounded exhaustive enumeration of search executions in n-best mode against the sorted score list of all derivations',
          'For every execution and every k in {1,2,3,5,#derivations+1,50}: returned scores == first min(k,#) of the sorted scores of all independently enumerated derivations, trees pairwise different, non-increasing, each valid and correctly scored.',
@@ -27,19 +27,19 @@ CHECKS = {
          'Parser part: every node of every returned tree must carry (label, symbol, head direction) of a grammar result with that category for its children, and the stored rule index must name such a result (G4 has same-category results with different labels and two-target unary rules, both head directions). Reader part: every licensed derivation and twin trees (the same child pair under different parents in one line) printed in each readable format and read back must carry the deriving rule label (and head direction where the format has no head field); every history of <=3 (language, format) reading steps in one process, each from fresh module state, is judged against the active grammar.',
          'Trusted: grammar callbacks as ground truth; transliterated parsing.pyx.', '5/C12'),
  'C16': ('search', MC, 'exhaustive enumeration of tag rows x pruning_size x beta through parse_sentence against the admitted-set oracle',
-         'Every combination of tag rows over {0,-1,-4,-150,-1e33} for n<=2 words x pruning_size {1,2,3} x beta {off,0.5,0.2,0.01} in a grammar where each tag choice yields a distinct derivation, 1-best and n-best, native and through depccg.parsing.run; a 40-tag inventory whose one-word sentences return exactly the admitted tags (best tag at every position, two lower tags at every ordered pair of positions): leaves must be admitted, result must be the optimum over admitted-only derivations, failure iff none.',
+         'Every combination of tag rows over {0,-1,-4,-150,-1e33} for n<=2 words x pruning_size {1,2,3} x beta {off,0.5,0.2,0.01} in a grammar where each tag choice yields a distinct derivation, 1-best and n-best, native and through depccg.parsing.run; a 40-tag inventory whose one-word sentences return exactly the admitted tags (best tag at every position, two lower tags at every ordered pair of positions): pruning_size 0 and beta 1e-8/1e-30 included; decisions 3, 4 and 9 float32 steps on either side of the threshold; the specified words of sentences whose other words are unspecified; leaves must be admitted, result must be the optimum over admitted-only derivations, failure iff none.',
          'Ties at the pruning boundary, probabilities within e^0.3 of the threshold and all-zero probabilities are unspecified and not judged (counted).', '5/C16'),
  'C03': ('catspace', EX, 'exhaustive enumeration of ordered category pairs and schema instantiations against schema relations',
-         'All ordered pairs of the shipped English and rebank inventories, rule-closure x inventory, U_en(2)^2 (U_en(3) x U_en(2) in thorough) and every instantiation of the six schemas over a pool with feature perturbations: each result must satisfy the relation of the schema its label names; identical parts must yield the schema result; listed special rules as constants.',
+         'All ordered pairs of the shipped English and rebank inventories, rule-closure x inventory, U_en(2)^2 (U_en(3) x U_en(2) in thorough) and every instantiation of the six schemas over a pool with feature perturbations: each result must satisfy the relation of the schema its label names; identical parts must yield the schema result; listed special rules as constants; the instantiation family is also run with a seen-rule table containing the pair and judged by the same relations.',
          'Trusted: mc/schemas.py restatement of the CCG schemata; nb erased before judging; bounds: categories <= 3 atoms outside the inventories/instantiations.', '5/C03'),
  'C04': ('catspace', EX, 'exhaustive enumeration of ordered category pairs, schema instantiations and unary inputs against schema relations',
-         'All ordered pairs of the shipped Japanese inventory, closure x inventory, U_ja(2)^2 (U_ja(3) x U_ja(2) in thorough), every instantiation of the ten schemas with perturbations; unary labels for every left-hand side of the shipped table and every bounded synthetic one.',
+         'All ordered pairs of the shipped Japanese inventory, closure x inventory, U_ja(2)^2 (U_ja(3) x U_ja(2) in thorough), every instantiation of the ten schemas with perturbations; unary labels for every left-hand side of the shipped table and every bounded synthetic one; instantiations also under a seen-rule table.',
          'Trusted: mc/schemas.py; unary labels outside adn/0-1 and adv/0-2 are unspecified.', '5/C04'),
  'C05': ('catspace', EX, 'exhaustive enumeration of category values and decorated texts up to a size/decoration bound',
-         'Every value of U(3) over both feature systems and / \\ | round-trips through str/parse and prints the independent canonical text; every decorated text (redundant () / <> around any sub-term, blanks at token boundaries) up to d decorations parses to the same value; every text with a required bracket pair removed is rejected; all 3469 shipped strings round-trip.',
+         'Every value of U(3) over both feature systems and / \\ | round-trips through str/parse and prints the independent canonical text; every decorated text (redundant () / <> around any sub-term, blanks at token boundaries) up to d decorations parses to the same value; every text with a required bracket pair removed is rejected (at the top level, inside redundant brackets and as an operand); atoms with unusual names (PRP$, -LRB-, N-num, primes, non-ASCII); all 3469 shipped strings round-trip.',
          'Trusted: independent printer in mc/cats.py; well-formed text = canonical text + balanced redundant brackets + blanks between tokens.', '5/C05'),
  'C06': ('catspace', EX, 'exhaustive enumeration of (pattern pair, category pair) cases against a three-valued reference matcher',
-         'Pattern pairs read from the grammar sources plus all canonical pattern pairs over <=3 variables/<=2 slashes, against all pairs of U(2) and all pool instantiations with feature perturbations: success iff the statement says so (unspecified zone not judged), bindings, failure and single-use behaviour.',
+         'Pattern pairs read from the grammar sources plus all canonical pattern pairs over <=3 variables/<=2 slashes, against all pairs of U(2) and all pool instantiations with feature perturbations: success iff the statement says so (unspecified zone not judged), bindings, failure and single-use behaviour; one-slash and one-feature perturbations of instantiated parts; patterns given as text or as parsed categories.',
          'Trusted: mc/matcher.py reference; mixed-direction ternary variables / mixed feature systems / repeated variables in one pattern are unspecified.', '5/C06'),
  'C13': ('catspace', EX, 'exhaustive enumeration of ordered pairs of category values against an independent structural comparator',
          'All ordered pairs of a size-ordered prefix of U(3) over both feature systems and three slashes: == iff identical, hash, != , ^ iff equal skeleton, string comparison iff canonical text; per value dict/set membership, clear_features over every subset of feature names; deep values (4-12 atoms, every shipped category with >=4 atoms) against every single-point neighbour; values derived by clear_features and by the rule functions must be interchangeable (==, hash, set/dict) with equal values built from scratch.',
@@ -57,10 +57,10 @@ CHECKS = {
          'C&C XML -> read_xml (shape, categories, words, token attributes, rule labels of licensed derivations); Jigg XML (ja) -> read_jigg_xml; every Jigg sentence self-contained (unique ids, references resolve, offsets tile, one root); build_ccg_tree isomorphic with rule attributes; normalize_tokens names; the document handed to ccg2lambda carries the template vocabulary.',
          'ccg2lambda.parse itself is not executed (nltk/yaml absent); template vocabulary read by a line scanner.', '5/C15'),
  'C17': ('data', EX, 'exhaustive enumeration of documents x dictionaries against a reference mask; complete pass over the shipped data files',
-         'Every document of <=2 sentences x <=2 tokens over 3 words x every dictionary mapping <=2 words to every non-empty subset of 3(4) categories in both call forms, and a 16-category inventory with every dictionary {a: <=3 positions, b: <=2 positions}: result == reference mask, dependency arrays bit-identical, tokens untouched. Every cat_dict.en entry is in targets.en, all 3469 shipped strings are well formed, inventories duplicate-free.',
+         'Every document of <=2 sentences x <=2 tokens over 3 words x every dictionary mapping <=2 words to every non-empty subset of 3(4) categories in both call forms, and a 16-category inventory with every dictionary {a: <=3 positions, b: <=2 positions}: result == reference mask (also for +-inf, NaN, huge and signed-zero scores and other large_negative_value settings), dependency arrays bit-identical, token order unchanged. Every cat_dict.en entry is in targets.en, all 3469 shipped strings are well formed, inventories duplicate-free.',
          'read_params (needs allennlp) is restated.', '5/C17'),
  'C18': ('history', MC, 'explicit-state BFS over rendering histories with canonical state hashing (closure at depth 1 => any history length)',
-         'States are canonical deep snapshots of result objects (single trees, n-best lists sharing tokens, batches, the placeholder, 5-13-word trees under every ordered pair of formats); transitions are the formats. Every transition must be a self-loop, every output must equal the fresh-copy output and repeat; if all transitions out of the initial state are self-loops the graph is closed and the property holds for histories of any length, otherwise the search continues to depth 3.',
+         'States are canonical deep snapshots of result objects (single trees, n-best lists sharing tokens, batches, the placeholder, tokens no XML document can carry, 5-13-word trees under every ordered pair of formats); the public accessors are asked after each rendering; transitions are the formats. Every transition must be a self-loop, every output must equal the fresh-copy output and repeat; if all transitions out of the initial state are self-loops the graph is closed and the property holds for histories of any length, otherwise the search continues to depth 3.',
          'State = content of result objects (object identity of shared tokens preserved); ccg2lambda formats excluded.', '5/C18'),
  'C19': ('treespace', EX, 'exhaustive enumeration of licensed trees covering the whole label vocabulary x placeholder batches x CLI formats',
          'Every licensed derivation (with synthetic unary entries) plus one derivation per label of the rule-function vocabulary (read from the grammar sources) x rich and bare tokens, the placeholder from a real failing run, every batch of <=3 sentences over {parsed, failed} x every CLI format (read from argparse.py) except the ccg2lambda ones: no exception, parsed sentences decode.',
